@@ -50,6 +50,8 @@ func (s *Sim) opConnect(op *Op) {
 	sl.RecvMax, sl.TAM, sl.MPS, sl.RPI0 = 0, 0, 0, false
 	sl.ExpectClose = false
 	sl.faulted = false
+	sl.stalled = false
+	sl.heldQ2 = nil
 
 	p := &rc.Packet{Type: rc.CONNECT, ProtoLevel: op.Ver, ProtoName: "MQTT", ClientID: sl.ClientID, KeepAlive: op.KeepAlive}
 	if op.Ver == 3 {
@@ -322,6 +324,16 @@ func (s *Sim) opPublish(op *Op) {
 				m.count("own_publish_with_colliding_id")
 			}
 		}
+	}
+	if op.QoS == 2 && op.CollideNext && op.PID == 0 {
+		// the broker assigns outbound ids 1,2,3,... per session: use the one it will hand out next
+		pid = sl.maxOutPID + 1
+		for sess.InQ2[pid] != nil {
+			pid++ // never reuse an id of an own exchange that is still in progress
+		}
+		op.Hold = true
+		sl.heldQ2 = append(sl.heldQ2, pid)
+		m.count("own_qos2_under_next_outbound_id")
 	}
 	p := &rc.Packet{Type: rc.PUBLISH, Version: sl.Ver, Topic: op.Topic, QoS: op.QoS, Retain: op.Retain, Dup: op.Dup, PacketID: pid}
 	// retransmission of an unreleased QoS 2 publish?
